@@ -168,11 +168,11 @@ mutual
 def validateRec : Route → Res Unit
   | .unknown _ _ => .err "unknown strategy type"
   | .pool _ _ _ => .ok ()
-  | .poolNil _ _ => .ok ()                      -- `case *Route_Pool: return nil` does not touch the payload
-  | .seriesNil _ _ => .panic .nilDeref          -- `series.Routes` on a nil *RouteSeries
+  | .poolNil _ _ => .err "nil pool"             -- FIX: a strategy wrapper without payload is rejected
+  | .seriesNil _ _ => .err "nil series"         -- FIX (was: `series.Routes` on a nil *RouteSeries)
   | .series din dout rs =>
     if rs.isEmpty then .err "empty series" else seriesLoop din dout rs
-  | .parallelNil _ _ => .panic .nilDeref
+  | .parallelNil _ _ => .err "nil parallel"     -- FIX
   | .parallel din dout rs ws =>
     if rs.isEmpty then .err "empty parallel"
     else if rs.length ≠ ws.length then .err "mismatched length of parallel routes and weights"
@@ -225,10 +225,37 @@ def recoverBlock {α} : Res α → Res α
   | .panic _ => .panic .explicit
   | r => r
 
-/-- `(*Route).Validate`; a nil receiver dereferences in `route.Strategy` -/
+/-- sdk.ValidateDenom: [a-zA-Z][a-zA-Z0-9/:._-]{2,127} -/
+def validDenom (d : String) : Bool :=
+  let cs := d.toList
+  match cs with
+  | [] => false
+  | c :: rest =>
+    c.isAlpha && cs.length ≥ 3 && cs.length ≤ 128 &&
+    rest.all fun x => x.isAlphanum || x == '/' || x == ':' || x == '.' || x == '_' || x == '-'
+
+mutual
+/-- FIX: every node's denom_in / denom_out must be a valid SDK denom (they end up in sdk.NewCoin). The code checks them
+    node by node inside validateRecursive; since nothing in there can panic any more, checking them in a pre-pass gives
+    the same outcome class. -/
+def denomsValid : Route → Bool
+  | .unknown a b => validDenom a && validDenom b
+  | .pool a b _ => validDenom a && validDenom b
+  | .poolNil a b => validDenom a && validDenom b
+  | .seriesNil a b => validDenom a && validDenom b
+  | .series a b rs => validDenom a && validDenom b && denomsValidList rs
+  | .parallelNil a b => validDenom a && validDenom b
+  | .parallel a b rs _ => validDenom a && validDenom b && denomsValidList rs
+def denomsValidList : List Route → Bool
+  | [] => true
+  | r :: rest => denomsValid r && denomsValidList rest
+end
+
+/-- `(*Route).Validate` AS FIXED: a nil receiver and invalid denoms are errors -/
 def Route.validate : Option Route → Res Unit
-  | none => .panic .nilDeref
+  | none => .err "nil route"
   | some r =>
+    if !denomsValid r then .err "invalid denom" else
     match validateRec r with
     | .ok _ => match recoverBlock (reuse [] r) with
       | .ok _ => .ok ()
